@@ -555,14 +555,14 @@ func pageSizeOne(r *vx.Run, in input) {
 	p := "PAbsent"
 	if in.Param != nil && *in.Param != "" {
 		if n, e := strconv.ParseUint(*in.Param, 10, 32); e == nil {
-			p = fmt.Sprintf("(PNum %d)", n)
+			p = fmt.Sprintf("(PNum %d%%N)", n)
 		} else {
 			p = "PInvalid"
 		}
 	}
 	res := "None"
 	if err == nil {
-		res = fmt.Sprintf("(Some %d)", got)
+		res = fmt.Sprintf("(Some %d%%N)", got)
 		if got == 0 && in.Default >= 1 && in.Max >= 1 {
 			r.FailSized("page-size-zero:GetPageSize", in, "GetPageSize returns 0: a listing with page size 0 never ends", 0)
 		}
@@ -571,11 +571,7 @@ func pageSizeOne(r *vx.Run, in input) {
 	if in.Param != nil {
 		pv = *in.Param
 	}
-	if in.Max > 5000 || in.Default > 5000 {
-		r.Case("", in, "pagesize/"+pv, false)
-		return
-	}
-	r.Case(fmt.Sprintf("CasePageSize %d %d %s %s", in.Default, in.Max, p, res), in, fmt.Sprintf("pagesize/%d/%d/%s", in.Default, in.Max, pv), true)
+	r.Case(fmt.Sprintf("CasePageSize %d%%N %d%%N %s %s", in.Default, in.Max, p, res), in, fmt.Sprintf("pagesize/%d/%d/%s", in.Default, in.Max, pv), true)
 }
 
 var _ = sharedapi.Cursor[item]{}
